@@ -23,7 +23,7 @@ PROP = dict(
     engines=[dict(hx="route", args=["c03"], model="route_c03")],
     theorems=["C03_modulo_findings", "C03_state_modulo_findings", "C03_decision", "C03_fields", "C03_reachable", "C03_refuted"],
     model_files="coq/Session/Deliver.v",
-    rule="260 (thorough 4000) histories of 24 (50) operations over 2-4 clients (MQTT 3.1.1 and 5 mixed, clean and persistent "
+    rule="1200 (thorough 20000) histories of 25 (40) operations over 2-4 clients (MQTT 3.1.1 and 5 mixed, clean and persistent "
          "sessions, Request Problem Information 0), topics {a/b, a/c, a, b}, filters {a/b, a/+, a/#, #, +/b, a/c, +, b}, five "
          "$share filters in three groups, invalid and refused filters, No Local, RAP, RH 0-2, identifiers, read-deny list, "
          "QoS 0-2, retained / empty payloads, MQTT 5 properties, inline publish/subscribe/unsubscribe, server maximum QoS "
